@@ -15,6 +15,7 @@ structure CtxW where
   kind : CtxKind
   resumed : Bool := false
   isOpen : Bool := true
+  closedSusp : Bool := false   -- its block was left while the owning task was suspended (generator closed)
   deriving Repr, Inhabited
 
 structure Watch where
@@ -115,6 +116,7 @@ structure Ctx where
   hasSync : Bool           -- some task calls into asynq synchronously (the yield-only clauses do not apply)
   treeShaped : Bool        -- no future is handed to a child (every task has one awaiter)
   singleKind : Bool
+  hasNonAsync : Bool       -- some task uses a NonAsyncContext (its failure depends on the schedule: no sequential oracle)
   deriving Inhabited
 
 def outcomeOfExcept : Except Err Val → Outcome
@@ -135,7 +137,8 @@ def checkDelivery (c : Ctx) (w : Watch) : Event → Option String
       else none
   | .ret o =>
     match c.tops[w.topIdx]? with
-    | some (_, body) => if evalTop c.cfg body != o then some "result-differs-from-sequential" else none
+    | some (_, body) =>
+      if !c.hasNonAsync && evalTop c.cfg body != o then some "result-differs-from-sequential" else none
     | none => some "ret-without-top"
   | .bad _ => some "unknown-event"
   | _ => none
@@ -257,17 +260,30 @@ def checkC06 (_c : Ctx) (w : Watch) : Event → Option String
     let callers := w.syncStack.map (·.1)
     w.ctxs.findSome? fun (_, x) =>
       if !x.isOpen then none
+      else if x.kind == .nonasync then none
       else if x.owner == u then (if x.resumed then none else some "own-context-paused-while-task-runs")
       else if w.awaitsStar w.fuel x.owner u || callers.contains x.owner ||
               callers.any (fun cl => w.awaitsStar w.fuel x.owner cl) then none   -- may be (and for trees must be) resumed
       else if x.resumed then some "context-active-while-unrelated-task-runs" else none
   | .flushB _ _ _ _ _ =>
     let callers := w.syncStack.map (·.1)
+    if callers.isEmpty && (w.ctxs.any fun (_, x) =>
+        x.isOpen && x.kind == .nonasync && !w.isDone x.owner && (w.lastYield.lookup x.owner).isSome) then
+      some "task-suspended-for-flush-inside-nonasync-context"
+    else
     w.ctxs.findSome? fun (_, x) =>
-      if !x.isOpen then none
+      if !x.isOpen || x.kind == .nonasync then none
       else if callers.contains x.owner then (if x.resumed then none else some "caller-context-paused-during-its-call")
       else if callers.any (fun cl => w.awaitsStar w.fuel x.owner cl) then none
       else if x.resumed then some "context-active-during-flush" else none
+  | .done t (.err .nonasync) =>
+    -- only a task that is suspended, inside a NonAsyncContext, on something still uncomputed may fail this way
+    let inside := w.ctxs.any fun (_, x) => (x.isOpen || x.closedSusp) && x.owner == t && x.kind == .nonasync
+    let blocked := match w.lastYield.lookup t with
+      | some (_, y) => y.leaves.any fun f => !w.isDone f
+      | none => false
+    -- (a task that is running when it fails got the error from a future it awaited: ordinary propagation)
+    if (w.lastYield.lookup t).isNone || (inside && blocked) then none else some "nonasync-failure-without-suspension"
   | .ret _ =>
     if w.ctxs.any (fun (_, x) => x.resumed) then some "context-left-active" else none
   | .bad _ => some "unknown-event"
@@ -354,7 +370,8 @@ def watchEvent (w : Watch) : Event → Watch
   | .ctx r c =>
     let w := { w with ctxs := w.ctxs.map fun (p : Nat × CtxW) => if p.1 == c then (p.1, { p.2 with resumed := r }) else p }
     if r then { w with ctxStack := c :: w.ctxStack } else { w with ctxStack := w.ctxStack.erase c }
-  | .ctxX c => { w with ctxs := w.ctxs.map fun (p : Nat × CtxW) => if p.1 == c then (p.1, { p.2 with isOpen := false }) else p }
+  | .ctxX c => { w with ctxs := w.ctxs.map fun (p : Nat × CtxW) =>
+      if p.1 == c then (p.1, { p.2 with isOpen := false, closedSusp := (w.lastYield.lookup p.2.owner).isSome }) else p }
   | .syncE t f => ({ w with syncStack := (t, f) :: w.syncStack }).mention t [f]
   | .syncX t f _ => { w with syncStack := w.syncStack.erase (t, f) }
   | .ret _ => w
@@ -439,8 +456,24 @@ def bodyKinds : Body → List Nat
   | .active k => bodyKinds k
   | _ => []
 
+def bodyHasNonAsync : Body → Bool
+  | .withCtx c b k => c == .nonasync || bodyHasNonAsync b || bodyHasNonAsync k
+  | .spawn c _ k => bodyHasNonAsync c || bodyHasNonAsync k
+  | .sync c _ k h => bodyHasNonAsync c || bodyHasNonAsync k || bodyHasNonAsync h
+  | .syncfut _ k h => bodyHasNonAsync k || bodyHasNonAsync h
+  | .item _ _ _ k => bodyHasNonAsync k
+  | .const _ k => bodyHasNonAsync k
+  | .errfut _ k => bodyHasNonAsync k
+  | .lazy _ k => bodyHasNonAsync k
+  | .yld _ k h => bodyHasNonAsync k || bodyHasNonAsync h
+  | .reyld k h => bodyHasNonAsync k || bodyHasNonAsync h
+  | .read _ k => bodyHasNonAsync k
+  | .active k => bodyHasNonAsync k
+  | _ => false
+
 def mkCtx (cfg : Cfg) (tops : List (Conv × Body)) : Ctx :=
   { cfg := cfg, tops := tops,
+    hasNonAsync := tops.any fun p => bodyHasNonAsync p.2,
     hasSync := tops.any fun p => bodyHasSync p.2,
     treeShaped := !(tops.any fun p => bodyShares p.2),
     singleKind := ((tops.map fun p => bodyKinds p.2).flatten.eraseDups.length ≤ 1) }
